@@ -102,8 +102,9 @@ type Step struct {
 type Case struct {
 	Index   int      `json:"case_index"`
 	Kind    string   `json:"kind"`
-	Dir     string   `json:"invocation_dir"`  // "" = repository root
-	Cwd     string   `json:"cwd_reached_via"` // cwdPhysical | cwdRepoParent | cwdRepo | cwdSubParent
+	Dir     string   `json:"invocation_dir"`            // "" = repository root
+	Multi   string   `json:"multi_arg_shape,omitempty"` // multi-arg cases: "<op>:<roles in command-line order>", roles K known (tracked, requested lockable state), O tracked with the other lockable state, N new
+	Cwd     string   `json:"cwd_reached_via"`           // cwdPhysical | cwdRepoParent | cwdRepo | cwdSubParent
 	PreRoot *string  `json:"preexisting_root_gitattributes"`
 	PreDir  *string  `json:"preexisting_dir_gitattributes"` // only when Dir != ""
 	PreKind string   `json:"preexisting_variant"`
@@ -981,6 +982,39 @@ var kindTable = []string{
 //	repeat-pairs        : op1 A; op1 A; op2 A; op2 A with op1 != op2 from {track, --lockable, --not-lockable}
 const focusBase = 1 << 20
 
+// Multi-argument cases (index >= multiBase, m = index - multiBase): 3-4 arguments of one mode
+// (patterns, or every 4th group --filename names), brought into the states
+//
+//	K  tracked with the lockable state the main command asks for ("already supported")
+//	O  tracked with the other lockable state (for a plain track: tracked and lockable, also "known")
+//	N  new
+//
+// by one or two set-up commands (themselves multi-argument, all-new lists), then
+//
+//	M   : track | track --lockable | track --not-lockable  [--filename]  <all arguments in some order>
+//	M   : the same again (idempotence)
+//	U   : untrack <2..n-1 of the arguments, some order>
+//	M2  : another of the three track forms over all arguments in another order (the untracked ones are new again)
+//
+// cwd = m % 4 (all four ways), main op = (m/4) % 3, top level / sub-directory = (m/4) % 2 (a
+// nested sub-directory for the sub-directory's-parent cwd), --filename iff (m/4) % 5 == 4;
+// number of arguments and the orders are drawn, but every even m puts a K argument first, so
+// that "known before new" occurs in at least half of the cases of every seed. The
+// expectation per argument is the single-argument one: the model applies the arguments of
+// a command one after another. Arguments are textually distinct and free of the known
+// coordinates (no leading '/' at the top level, no space # backslash glob or quote in names).
+const multiBase = 2 << 20
+
+// trigMultiKnownFirst: an argument that is new (or needs its lockable state changed) stands
+// behind an "already supported" argument in the same command. trigMultiUntrack: untrack with
+// several arguments.
+const (
+	trigMultiKnownFirst = "multi-arg/known-before-new"
+	trigMultiUntrack    = "multi-arg/untrack"
+)
+
+func permute(r *rand.Rand, n int) []int { return r.Perm(n) }
+
 var focusKinds = []string{"lockable-then-plain", "parent-covers", "repeat-pairs"}
 var coverDirs = []string{"sub", "deep/er/still", "dïr"}
 
@@ -998,8 +1032,11 @@ func seqLen(r *rand.Rand, idx int) int {
 func genCase(seed int64, idx int) Case {
 	r := rand.New(rand.NewSource(seed*1000003 + int64(idx)*7919 + 17))
 	c := Case{Index: idx}
-	focus, j := idx >= focusBase, idx-focusBase
-	if focus {
+	multi, m := idx >= multiBase, idx-multiBase
+	focus, j := idx >= focusBase && !multi, idx-focusBase
+	if multi {
+		c.Kind = "multi-arg"
+	} else if focus {
 		c.Kind = focusKinds[j%len(focusKinds)]
 	} else {
 		c.Kind = kindTable[idx%len(kindTable)]
@@ -1108,6 +1145,93 @@ func genCase(seed int64, idx int) Case {
 			}
 			c.Args = []Arg{mk(mode, fp, ""), mk("pattern", genPattern(r, r.Intn(2) == 0, false), "")}
 		}
+	case "multi-arg":
+		n := 3 + r.Intn(2)
+		mode := "pattern"
+		if (m/4)%5 == 4 {
+			mode = "filename"
+		}
+		if (m/4)%2 == 0 {
+			c.Dir = ""
+		} else {
+			c.Dir = dirs[3+r.Intn(len(dirs)-3)]
+		}
+		if m%4 == 3 { // sub-directory's-parent cwd
+			c.Dir = nestedDirs[(m/4)%len(nestedDirs)]
+		}
+		seenText := map[string]bool{}
+		for len(c.Args) < n {
+			var t string
+			if mode == "filename" {
+				t = genFilename(r, focusClean)
+				if strings.HasPrefix(t, "\"") {
+					t = "q" + t[1:]
+				}
+				t = withSub(t)
+			} else {
+				t = genPattern(r, false, false)
+				if c.Dir == "" {
+					t = strings.TrimPrefix(t, "/")
+				}
+			}
+			if t == "" || seenText[t] {
+				continue
+			}
+			seenText[t] = true
+			c.Args = append(c.Args, mk(mode, t, ""))
+		}
+		op := []string{"track-lockable", "track", "track-not-lockable"}[(m/4)%3]
+		// roles: argument 0 = K, 1 = O, 2 = N, 3 = N or K
+		roles := []byte{'K', 'O', 'N', 'N'}[:n]
+		if n == 4 && r.Intn(2) == 0 {
+			roles[3] = 'K'
+		}
+		kLockable := r.Intn(2) == 0 // plain track: K may be in either lockable state
+		var plainGrp, lockGrp []int
+		for i, ro := range roles {
+			lockable := false
+			switch {
+			case ro == 'N':
+				continue
+			case op == "track-lockable":
+				lockable = ro == 'K'
+			case op == "track-not-lockable":
+				lockable = ro == 'O'
+			default:
+				lockable = ro == 'O' || kLockable
+			}
+			if lockable {
+				lockGrp = append(lockGrp, i)
+			} else {
+				plainGrp = append(plainGrp, i)
+			}
+		}
+		if len(plainGrp) > 0 {
+			fixed = append(fixed, Step{Op: "track", Args: plainGrp})
+		}
+		if len(lockGrp) > 0 {
+			fixed = append(fixed, Step{Op: "track-lockable", Args: lockGrp})
+		}
+		order := permute(r, n)
+		if m%2 == 0 { // a K argument first
+			for i, ai := range order {
+				if roles[ai] == 'K' {
+					order[0], order[i] = order[i], order[0]
+					break
+				}
+			}
+		}
+		shape := op + ":"
+		for _, ai := range order {
+			shape += string(roles[ai])
+		}
+		c.Multi = shape
+		fixed = append(fixed, Step{Op: op, Args: order}, Step{Op: op, Args: append([]int{}, order...)})
+		up := permute(r, n)
+		fixed = append(fixed, Step{Op: "untrack", Args: up[:2+r.Intn(n-2)]})
+		op2 := []string{"track-lockable", "track", "track-not-lockable"}[r.Intn(3)]
+		fixed = append(fixed, Step{Op: op2, Args: permute(r, n)})
+		length = len(fixed) + r.Intn(2)
 	case "lockable-then-plain":
 		if (j/12)%4 == 3 {
 			c.Args = []Arg{mk("filename", withSub(genFilename(r, focusClean)), "")}
@@ -1187,7 +1311,9 @@ func genCase(seed int64, idx int) Case {
 	// coprime to len(kindTable)), every focus case according to its index. No random draw is
 	// spent on it, so the cases that keep the physical path are exactly what they were.
 	c.Cwd = cwdPhysical
-	if focus {
+	if multi {
+		c.Cwd, c.Dir = settleCwd(allCwds[m%len(allCwds)], c.Dir, m/4)
+	} else if focus {
 		c.Cwd = allCwds[(j/3)%len(allCwds)]
 		if c.Cwd == cwdSubParent {
 			if c.Kind == "parent-covers" {
@@ -1340,6 +1466,9 @@ func (c Case) class() string {
 	}
 	if c.Index >= focusBase {
 		own += "/focus=" + c.Kind
+		if c.Multi != "" {
+			own += "/" + c.Multi
+		}
 		if c.Cwd == cwdPhysical {
 			own += "/cwd=" + c.Cwd
 		}
